@@ -72,7 +72,7 @@ SPEC = {
                  "C18_shutdown_flag_table", "C18_flag_table_cancel_empties_heap", "C18_flag_table_refuses_add",
                  "C18_cancel_flag_held_element", "C18_cancel_flag_held_both_enabled",
                  "C18_cancel_flag_held_dropped_witness", "C18_cancel_flag_held_delivered_witness",
-                 "C18_dropped_never_delivered", "C18_dropped_cancel_false"],
+                 "C18_dropped_never_delivered", "C18_dropped_cancel_false", "C18_shutdown_from_callback_witness"],
     "trusted_base": [
         "hand-written protocol model Hive/Model/Timed.lean of runtime/timed (queue.go, executor.go, taskexecutor.go over container/heap "
         "and generalheap); ties: (1) differential execution of the model's own transition function under a deterministic scheduler "
